@@ -76,4 +76,12 @@ MUTANTS = [
      "    return _fm_dir.DirFileMakerSdv(modification, contents)",
      "    return _fm_dir.DirFileMakerSdv(ModificationType.CREATE, contents)",
      'ParserOfFileMaker.parse : ensures['),
+    ('c15-fc-validator-drops-matcher-validators', 'C15', 'exactly_lib/impls/types/files_condition/impl/literal.py',
+     "                validators.append(mb_matcher.validator)", "                pass",
+     '_DdvHelper.validator_validator_of_files : '),
+    ('c15-fc-validator-checks-first-name-only', 'C15', 'exactly_lib/impls/types/files_condition/impl/literal.py',
+     "            validators.append(_IsRelativePosixPath(file_name.value_when_no_dir_dependencies()))",
+     "            if not validators:\n"
+     "                validators.append(_IsRelativePosixPath(file_name.value_when_no_dir_dependencies()))",
+     '_DdvHelper.validator_validator_of_files : '),
 ]
